@@ -153,6 +153,7 @@ def run(ctx):
     cfl = res.clause('C05.f', 'R-AGREE', 'incomplete flag = no operation-output entry (so an unflagged recording has its result entry)', floor=2)
     c18.incomplete_flag_clause(ctx, res, cfl, 'C05', 'C05.f')
 
+    rm.interception_flag_clause(ctx, res, 'C05', 'C05.g')
     # ------------------------------------------------------------------ C05.b/c  capture-or-dead in recording mode
     cc = res.clause('C05.c', 'R-MUSTPASS', 'in recording mode an executed interception is captured or the recording is dead', floor=4)
     base_atoms = recmodel_base_atoms(ctx)
